@@ -20,6 +20,11 @@ package main
 //     Lean heap model (Mismatch).  Liveness does the same for every call of parts 1-3: the last
 //     few result objects stay alive and must not change when later calls run, and no call may
 //     change its arguments.
+//  5. argument kinds and argument reuse (c19args.go): every function that takes a bytes-like
+//     argument with every kind object/typeconv.go accepts there (string, byte_slice, buffer,
+//     file), the same object used by several calls and by several parameters of one call,
+//     against the Go function on the object's initial contents (Spec), the objects' contents
+//     after every call (Spec), and the Lean argument-object model (Mismatch).
 
 import (
 	"bytes"
@@ -444,6 +449,9 @@ func c19_tokOf(o object.Object) string {
 	}
 	if v := c19_jvOfObj(o); v != nil {
 		return v.tok()
+	}
+	if b, ok := o.(*object.Buffer); ok { // a buffer argument: its contents (looking does not read)
+		return "B" + c19_hx(string(b.Value().Bytes()))
 	}
 	return "?" + string(o.Type())
 }
@@ -2734,13 +2742,21 @@ func c19_runC19(e *Env) {
 		"Sessions: sequences of 2-10 steps (literal / encode(slot, codec) / decode(slot, codec)) over live result objects, 65% focused on one codec, related literals " +
 		"(same length, prefix, extension), directed shapes per codec (a:=enc(A); b:=enc(B); dec(a); dec(b) ...), through the object API (all slots re-examined after every step) " +
 		"and as one script; non-trivial when at least two encodes precede a decode. Liveness: the last 6 results of ALL calls of the other parts are kept alive and re-examined " +
-		"after every later call, and every call's arguments are compared before/after"
+		"after every later call, and every call's arguments are compared before/after. " +
+		"Use sessions (argument kinds and reuse): a heap of 1-3 argument objects of every bytes-like kind (string, byte_slice, buffer from bytes / built by writes / partly read, " +
+		"in-memory file, 5% ill-typed values; contents related to one base value, encoded text for decoders) and 2-6 calls over it of the functions that take bytes-like arguments " +
+		"(codec registry, base64 module, gzip, json text, string()/byte_slice(), strings module, string / byte_slice methods, bytes module; 60% focused on one function, 65% on one hot object, " +
+		"also the same object in two parameters), directed shapes (every function x every kind x three uses), through the object API (every object re-examined after every call) and as one " +
+		"script; non-trivial when a buffer or file is used by more than one call or twice in one call"
 	// sessions run first (a minimal sequence makes the clearest replay) on an RNG of their own,
 	// so that the case streams of the other parts are what they were before sessions existed
 	saved := *e.Rng
 	sessRng := NewRNG(e.Rng.Next() ^ 0xC19C19C19)
 	*e.Rng = saved
+	usesRng := NewRNG(e.Rng.Next() ^ 0xA26C19A26) // use sessions (c19args.go): likewise on their own stream, and first
+	*e.Rng = saved
 	c19Live.r, c19Live.ents = e.R, nil
+	c19ArgUses(e, usesRng)
 	c19Sessions(e, sessRng)
 	c19Codecs(e)
 	c19Floats64(e)
